@@ -27,7 +27,7 @@ LEVEL = 'proof'
 TRUSTED = []
 EXPLANATION = ''
 LEVEL_TEXT = ('Every listed function of /repo is verified against a protocol-level specification for all inputs (no bound): '
-              'CompactSize encode/decode (decoder on shortest-form input and on every payload of each of the four forms) and var_str, data pushes, script numbers (encode, decode, both round trips). Script.serialize is verified '
+              'CompactSize encode/decode (decoder on shortest-form input and on every payload of each of the four forms; the encoder refuses every integer outside 0..2^64-1) and var_str, data pushes, script numbers (encode, decode, both round trips). Script.serialize is verified '
               'against the protocol definition for every opcode value and every data item, for ANY number of commands (loop invariant over a left fold; elements are '
               'opcodes 0..255 or data items of 0..65535 bytes) and additionally per kind vector of up to 3 commands (loop unrolled, data of any length incl. the refused > 65535). Script.parse_bytesio is OUTSIDE the verifier (object construction, '
               'recursive sub-script detection): the parse -> items -> serialize round trip is a BOUNDED native stand-in over an enumerated script family '
